@@ -62,19 +62,20 @@ var c14Concrete = map[string]string{"Expr": "Ident", "Stmt": "ExprStmt", "Decl":
 
 // c14Side is one of the two executions (dst or ast).
 type c14Side struct {
-	types        map[string]reflect.Type // concrete pointer types by name
-	ids          map[interface{}]int
-	created      int
-	log          []c14Event
-	step         int
-	seed         uint32
-	density      uint32
-	ops          map[string]int
-	nodeIfc      reflect.Type
-	violated     string
-	preSeen      map[int]int
-	rootReplaced bool
-	rootMode     bool // scripts that only replace the root and abort (no other edits, so no early panics)
+	types              map[string]reflect.Type // concrete pointer types by name
+	ids                map[interface{}]int
+	created            int
+	log                []c14Event
+	step               int
+	seed               uint32
+	density            uint32
+	ops                map[string]int
+	nodeIfc            reflect.Type
+	violated           string
+	preSeen            map[int]int
+	rootReplaced       bool
+	nilPackageChildren int  // callbacks whose parent is the package and whose node is nil
+	rootMode           bool // scripts that only replace the root and abort (no other edits, so no early panics)
 }
 
 func (s *c14Side) build(t reflect.Type) reflect.Value {
@@ -129,6 +130,11 @@ func (s *c14Side) decide(phase, typ, name string, index int) uint32 {
 // on handles one callback. Returns the callback's result.
 func (s *c14Side) on(phase string, node, parent interface{}, name string, index int, cur c14Cursor) bool {
 	if refl.IsNil(node) {
+		// callbacks on nil optional children are not compared (go/ast has child fields dst lacks),
+		// but a package has no optional children: each of its children is one of its files
+		if pv := reflect.Indirect(reflect.ValueOf(parent)); pv.IsValid() && pv.Kind() == reflect.Struct && pv.Type().Name() == "Package" {
+			s.nilPackageChildren++
+		}
 		return true
 	}
 	s.step++
@@ -506,6 +512,9 @@ func c14RunMode(c *fw.Ctx, id string, droot dst.Node, aroot ast.Node, d *decorat
 	asig, _ := fw.Try(func() { ares = astutil.Apply(aroot, apre, apost) })
 	viol := func(rule, sig, detail string) {
 		c.Violate(rule, sig, fmt.Sprintf("%s (seed %d density %d%%): %s", id, seed, density, detail), src)
+	}
+	if ds.nilPackageChildren != as.nilPackageChildren {
+		viol("package-children", "package-children:nil", fmt.Sprintf("callbacks with the package as parent and a nil node: dstutil %d, astutil %d (a package's children are exactly its files)", ds.nilPackageChildren, as.nilPackageChildren))
 	}
 	if (dsig == "") != (asig == "") {
 		viol("panic-parity", "panic-parity", fmt.Sprintf("dstutil panic=%q astutil panic=%q\n%s", dsig, asig, ddetail))
